@@ -20,6 +20,19 @@ type BasicType interface {
 		~float32 | ~float64
 }
 
+// boundedCap limits a capacity hint taken from a count read off the wire to the
+// number of elements the remaining input could possibly hold, so that a hostile
+// count cannot make a reader reserve memory for data that is not there.
+func boundedCap(count int, buf *bytes.Buffer, elemSize int) int {
+	if elemSize < 1 {
+		elemSize = 1
+	}
+	if limit := buf.Len() / elemSize; count > limit {
+		return limit
+	}
+	return count
+}
+
 func WriteBasicType[T BasicType](buf *bytes.Buffer, v T) error {
 	return binary.Write(buf, binary.BigEndian, &v)
 }
@@ -73,7 +86,8 @@ func ReadBasicTypeList[T constraints.Unsigned, K BasicType](buf *bytes.Buffer) (
 	}
 	count := int(t)
 
-	result := make([]K, 0, count)
+	var k K
+	result := make([]K, 0, boundedCap(count, buf, binary.Size(k)))
 	var err error
 	for i := 0; i < count; i++ {
 		v, e := ReadBasicType[K](buf)
@@ -92,7 +106,8 @@ func ReadBasicTypeListLE[T constraints.Unsigned, K BasicType](buf *bytes.Buffer)
 	}
 	count := int(t)
 
-	result := make([]K, 0, count)
+	var k K
+	result := make([]K, 0, boundedCap(count, buf, binary.Size(k)))
 	var err error
 	for i := 0; i < count; i++ {
 		v, e := ReadBasicType[K](buf)
@@ -134,6 +149,9 @@ func ReadString[T constraints.Unsigned](buf *bytes.Buffer) (string, error) {
 		return "", err
 	}
 	length := int(t)
+	if length > buf.Len() {
+		return "", io.ErrUnexpectedEOF
+	}
 
 	strBytes := make([]byte, length)
 	_, err := io.ReadFull(buf, strBytes)
@@ -146,6 +164,9 @@ func ReadStringLE[T constraints.Unsigned](buf *bytes.Buffer) (string, error) {
 		return "", err
 	}
 	length := int(t)
+	if length > buf.Len() {
+		return "", io.ErrUnexpectedEOF
+	}
 
 	strBytes := make([]byte, length)
 	_, err := io.ReadFull(buf, strBytes)
@@ -247,7 +268,7 @@ func ReadFixedStringListTrimPadding[T constraints.Unsigned](buf *bytes.Buffer, f
 	}
 	count := int(t)
 
-	result := make([]string, 0, count)
+	result := make([]string, 0, boundedCap(count, buf, fixedLen))
 	var err error
 	for i := 0; i < count; i++ {
 		str, e := ReadFixedStringTrimPadding(buf, fixedLen, padChar, padLeft)
@@ -270,7 +291,7 @@ func ReadFixedStringListTrimPaddingLE[T constraints.Unsigned](buf *bytes.Buffer,
 	}
 	count := int(t)
 
-	result := make([]string, 0, count)
+	result := make([]string, 0, boundedCap(count, buf, fixedLen))
 	var err error
 	for i := 0; i < count; i++ {
 		str, e := ReadFixedStringTrimPadding(buf, fixedLen, padChar, padLeft)
@@ -327,13 +348,17 @@ func ReadStringListLE[T constraints.Unsigned, K constraints.Unsigned](buf *bytes
 	}
 	count := int(t)
 
-	result := make([]string, 0, count)
+	var k K
+	result := make([]string, 0, boundedCap(count, buf, binary.Size(k)))
 	for i := 0; i < count; i++ {
 		var k K
 		if err := binary.Read(buf, binary.LittleEndian, &k); err != nil {
 			return nil, err
 		}
 		length := int(k)
+		if length > buf.Len() {
+			return nil, errors.New("incomplete string bytes")
+		}
 
 		strBytes := make([]byte, length)
 		n, err := buf.Read(strBytes)
@@ -353,13 +378,17 @@ func ReadStringList[T constraints.Unsigned, K constraints.Unsigned](buf *bytes.B
 	}
 	count := int(t)
 
-	result := make([]string, 0, count)
+	var k K
+	result := make([]string, 0, boundedCap(count, buf, binary.Size(k)))
 	for i := 0; i < count; i++ {
 		var k K
 		if err := binary.Read(buf, binary.BigEndian, &k); err != nil {
 			return nil, err
 		}
 		length := int(k)
+		if length > buf.Len() {
+			return nil, errors.New("incomplete string bytes")
+		}
 
 		strBytes := make([]byte, length)
 		n, err := buf.Read(strBytes)
@@ -395,7 +424,7 @@ func ReadObjectList[T constraints.Unsigned, K BinaryCodec](buf *bytes.Buffer, ne
 	}
 	count := int(t)
 
-	result := make([]K, 0, count)
+	result := make([]K, 0, boundedCap(count, buf, 1))
 	for i := 0; i < count; i++ {
 		k := newFn()
 		if e := k.Decode(buf); e != nil {
@@ -429,7 +458,7 @@ func ReadObjectListLE[T constraints.Unsigned, K BinaryCodec](buf *bytes.Buffer, 
 	}
 	count := int(t)
 
-	result := make([]K, 0, count)
+	result := make([]K, 0, boundedCap(count, buf, 1))
 	for i := 0; i < count; i++ {
 		k := newFn()
 		if e := k.Decode(buf); e != nil {
